@@ -10,10 +10,10 @@ Definition has_reason (z : Z) : bool := existsb (Z.eqb z) close_reason_codes.
 
 Definition d_cev (v : val) : cev :=
   match v with
-  | L [I 0; n] => CText (dN n)
-  | L [I 1; n] => CBin (dN n)
-  | L [I 2; c] => CDisc (Some (dZ c))
-  | _ => CDisc None
+  | L [I 0; n; b] => CText (dN n) (dbool b)
+  | L [I 1; n; b] => CBin (dN n) (dbool b)
+  | L [I 2; c; r] => CDisc (dopt dZ c) (dbool r)
+  | _ => CDisc None false
   end.
 
 Definition d_sfail (v : val) : sfail :=
